@@ -525,16 +525,10 @@ def sub(tier, what, out):
 
 def run(tier):
     chk = vf.Check(PROP, tier, level='fault_enumeration', deadline_s=1200 if tier == 'quick' else 7200)
-    fd, out = tempfile.mkstemp(prefix='c09', dir=os.path.join(vf.VERIF, 'build')); os.close(fd)
-    r = subprocess.run([sys.executable, os.path.join(vf.VERIF, 'vcheck'), PROP, '--tier', tier, '--sub', 'all', '--out', out],
-                       stdout=subprocess.PIPE, stderr=subprocess.STDOUT, text=True)
-    try:
-        d = json.load(open(out))
-    except Exception:
-        chk.violation('harness', {'cfg': CFG, 'kind': 'none'}, 'sub-exploration failed: ' + r.stdout[-800:])
+    d, err = vf.run_sub(PROP, tier, 'all', prefix='c09')
+    if d is None:
+        chk.harness_error('sub-exploration failed: ' + err)
         return chk.finish('C09', '')
-    finally:
-        os.unlink(out)
     for v in d['viol']:
         chk.violation(v['key'], v['rec'], v['msg'])
     for name, p in d['parts'].items():
